@@ -182,10 +182,30 @@ func classify(c vcfg, fd protoreflect.FieldDescriptor, x, y protoreflect.Value, 
 			v := d.AsDuration()
 			return v == math.MaxInt64 || v == math.MinInt64
 		}
+		far := "within-int64-ns"
 		if sat(dx) || sat(dy) {
-			return "branch:" + c.kind + ":asduration-saturated:" + res
+			far = "beyond-int64-ns"
 		}
-		return "branch:" + c.kind + ":asduration-exact:" + res
+		if c.kind == "durp" {
+			// DurationValueWithinP still goes through AsDuration
+			return "branch:durp:asduration-" + far + ":" + res
+		}
+		// DurationValueWithin works on (seconds, nanos): the branch of durationsWithin the pair takes
+		xs, xn, ys, yn := dx.GetSeconds(), int64(dx.GetNanos()), dy.GetSeconds(), int64(dy.GetNanos())
+		if xs < ys {
+			xs, xn, ys, yn = ys, yn, xs, xn
+		}
+		ds := new(big.Int).Sub(big.NewInt(xs), big.NewInt(ys))
+		ns := new(big.Int).Mul(ds, big.NewInt(1000000000))
+		switch {
+		case ds.Cmp(big.NewInt(9223372041)) > 0:
+			return "branch:dur:" + far + ":seconds-too-far-apart:" + res
+		case xn-yn >= 0:
+			return "branch:dur:" + far + ":nanos-add:" + res
+		case ns.Cmp(big.NewInt(yn-xn)) >= 0:
+			return "branch:dur:" + far + ":nanos-subtract:" + res
+		}
+		return "branch:dur:" + far + ":nanos-dominate:" + res
 	}
 	return "branch:?"
 }
